@@ -12,6 +12,15 @@ package main
 //	       | e                                       one pass of timeBasedMetaEntryWalFlush
 //	  r ::= 0 | 1   outcome of `GetWALStats() > MAX_WAL_FILE_SIZE_BYTES` for the appends of this op (the harness sets
 //	                MAX_WAL_FILE_SIZE_BYTES to 2^62 resp. 0 before the op): 1 = every append is followed by a roll-over
+//	       | xb:<m> | xr:<m> | xe:<m>                only as the LAST op and with one shard: a crash INSIDE an operation —
+//	                xb: a block-rotation pass (like b) that dies right after the m-th completed step of rotateBlock
+//	                    (flushBlock ; DeleteWAL of each WAL file ; initNewDpWal); xe: a meta-WAL write (like e) that dies
+//	                    right after the m-th step of Wal.Write (truncate); xr: the writer crashes between two ops as
+//	                    usual, the FIRST restart dies right after the m-th completed step of RecoverWALData (deleteWalFile
+//	                    of each file ; flushBlock of the group), a second restart recovers completely.  With fewer than m
+//	                    steps the operation runs to its end.  The steps are found with the crash points that overlaygen
+//	                    inserts into copies of the current source (utils.VerifCrashPoint, as for C07): a first run on a
+//	                    scratch copy logs the points, the real run is killed at the chosen one (VERIF_CRASH_AT).
 //	The end of the history is the CRASH.
 //
 // Every case runs in its own two processes (the engine keeps global state):
@@ -72,6 +81,7 @@ import (
 	"github.com/siglens/siglens/pkg/segment/writer/metrics"
 	"github.com/siglens/siglens/pkg/segment/writer/metrics/meta"
 	"github.com/siglens/siglens/pkg/segment/writer/metrics/wal"
+	"github.com/siglens/siglens/pkg/utils"
 	log "github.com/sirupsen/logrus"
 )
 
@@ -96,6 +106,8 @@ type c10rOp struct {
 	roll bool
 	seed uint64
 	n, k int
+	sub  byte // x ops: 'b', 'r', 'e'
+	m    int  // x ops: number of completed steps before the process dies
 }
 
 type c10rCase struct {
@@ -208,11 +220,22 @@ func c10rParse(line string) (*c10rCase, bool) {
 			if op.s, ok = c10rAtoi(p[0]); !ok || op.s >= c.nsh {
 				return nil, false
 			}
+		case 'x':
+			if len(p) != 2 || len(p[0]) != 1 || !strings.Contains("bre", p[0]) || c.nsh != 1 {
+				return nil, false
+			}
+			op.sub = p[0][0]
+			if op.m, ok = c10rAtoi(p[1]); !ok || op.m < 1 || op.m > 1000 {
+				return nil, false
+			}
 		default:
 			return nil, false
 		}
 		if !ok {
 			return nil, false
+		}
+		if len(c.ops) > 0 && c.ops[len(c.ops)-1].kind == 'x' {
+			return nil, false // a crash op must be the last one
 		}
 		c.ops = append(c.ops, op)
 	}
@@ -341,7 +364,7 @@ func c10rWorkerMain(mode, dir string) {
 			emit(map[string]string{"fatal": "tsids: " + err.Error()})
 			os.Exit(3)
 		}
-		emit(c10rRecover(tsids))
+		c10rRecover(tsids, emit)
 	}
 }
 
@@ -409,6 +432,15 @@ func c10rWrite(c *c10rCase, emit func(interface{})) {
 	}
 	for i, op := range c.ops {
 		st := c10rState{Op: i, Pre: metrics.VerifC10RShards()}
+		utils.VerifCrashNote(fmt.Sprintf("op %d", i))
+		if op.kind == 'x' {
+			switch op.sub {
+			case 'b':
+				metrics.VerifC10RMetricsFlushOnce() // may die inside (VERIF_CRASH_AT)
+			case 'e':
+				metrics.VerifC10RMetaEntryWalFlushOnce()
+			}
+		}
 		switch op.kind {
 		case 'd':
 			mn, _, _ := c10rSeriesName(op.s)
@@ -556,7 +588,7 @@ func c10rReadBlocks(tsids map[string]uint64) []c10rBlock {
 	return out
 }
 
-func c10rRecover(tsids map[string]uint64) c10rRecovered {
+func c10rRecover(tsids map[string]uint64, emit func(interface{})) {
 	var res c10rRecovered
 	base := metrics.VerifC10RWalBaseDir()
 	ents, _ := os.ReadDir(base)
@@ -589,9 +621,12 @@ func c10rRecover(tsids map[string]uint64) c10rRecovered {
 	}
 	res.Groups, _ = metrics.VerifC10RExtractWALFileInfo(base)
 	res.Before = c10rReadBlocks(tsids)
+	emit(res) // line 1: the state found, before any recovery function ran
+	res = c10rRecovered{}
+	utils.VerifCrashNote("recover")
 
 	// cmd/startup/startup.go:391-393
-	metrics.RecoverWALData()
+	metrics.RecoverWALData() // may die inside (VERIF_CRASH_AT)
 	metrics.RecoverMNameWALData()
 	metrics.RecoverMEntryWALData()
 
@@ -636,7 +671,7 @@ func c10rRecover(tsids map[string]uint64) c10rRecovered {
 			}
 		}
 	}
-	return res
+	emit(res) // line 2
 }
 
 // ---------------------------------------------------------------- parent
@@ -649,17 +684,123 @@ type c10rKey struct {
 
 func (k c10rKey) String() string { return fmt.Sprintf("%s/%d/%d", k.mid, k.seg, k.blk) }
 
-func c10rRunChild(mode, dir string, stdin []byte) ([]byte, error) {
+// runs one worker process; exit code 77 = the process died at the requested crash point (not an error)
+func c10rRunChild(mode, dir string, stdin []byte, env ...string) (out []byte, died bool, err error) {
 	exe, _ := os.Executable()
 	cmd := exec.Command(exe, "c10rworker", mode, dir)
 	cmd.Stdin = bytes.NewReader(stdin)
+	cmd.Env = append(os.Environ(), env...)
 	var stderr bytes.Buffer
 	cmd.Stderr = &stderr
-	out, err := cmd.Output()
-	if err != nil {
-		return out, fmt.Errorf("%v: %s", err, trunc(stderr.String(), 600))
+	out, err = cmd.Output()
+	if ee, ok := err.(*exec.ExitError); ok && ee.ExitCode() == 77 {
+		return out, true, nil
 	}
-	return out, nil
+	if err != nil {
+		return out, false, fmt.Errorf("%v: %s", err, trunc(stderr.String(), 600))
+	}
+	return out, false, nil
+}
+
+// the global index of the crash point that is the m-th completed STEP after the note `after` in a crash log
+// (0 = there are fewer than m steps).  A point "<n> <func>:<k>|<calls>" is a step when isStep(func, calls).
+func c10rFindCrashPoint(logFile, after string, m int, isStep func(fn string, calls []string) bool) int {
+	b, err := os.ReadFile(logFile)
+	if err != nil {
+		return 0
+	}
+	seen, cnt := false, 0
+	for _, l := range strings.Split(string(b), "\n") {
+		if l == after {
+			seen = true
+			continue
+		}
+		if !seen {
+			continue
+		}
+		f := strings.SplitN(l, " ", 2)
+		if len(f) != 2 {
+			continue
+		}
+		n, err := strconv.Atoi(f[0])
+		if err != nil {
+			continue
+		}
+		lab := strings.SplitN(f[1], "|", 2)
+		if len(lab) != 2 {
+			continue
+		}
+		fn := lab[0][:strings.LastIndex(lab[0], ":")]
+		if isStep(fn, strings.Split(lab[1], "+")) {
+			cnt++
+			if cnt == m {
+				return n
+			}
+		}
+	}
+	return 0
+}
+
+func c10rHas(l []string, x string) bool {
+	for _, y := range l {
+		if y == x {
+			return true
+		}
+	}
+	return false
+}
+
+func c10rIsStep(sub byte) func(string, []string) bool {
+	switch sub {
+	case 'b':
+		return func(fn string, calls []string) bool {
+			return (fn == "rotateBlock" && c10rHas(calls, "flushBlock")) || (fn == "deleteDpWalFiles" && c10rHas(calls, "DeleteWAL")) ||
+				(fn == "cleanAndInitNewDpWal" && c10rHas(calls, "initNewDpWal"))
+		}
+	case 'e':
+		return func(fn string, calls []string) bool { return fn == "Write" && c10rHas(calls, "truncate") }
+	default:
+		return func(fn string, calls []string) bool {
+			return fn == "RecoverWALData" && (c10rHas(calls, "deleteWalFile") || c10rHas(calls, "flushBlock"))
+		}
+	}
+}
+
+func c10rParseStates(o []byte) ([]c10rState, error) {
+	var states []c10rState
+	sc := bufio.NewScanner(bytes.NewReader(o))
+	sc.Buffer(make([]byte, 1<<20), 1<<28)
+	for sc.Scan() {
+		var st c10rState
+		if err := json.Unmarshal(sc.Bytes(), &st); err != nil {
+			return nil, err
+		}
+		states = append(states, st)
+	}
+	return states, nil
+}
+
+// the two lines a recovery process prints: before it runs the recovery functions, and after
+func c10rParseRec(o []byte) (first, second *c10rRecovered, err error) {
+	lines := bytes.Split(bytes.TrimSpace(o), []byte("\n"))
+	for i, l := range lines {
+		if len(bytes.TrimSpace(l)) == 0 {
+			continue
+		}
+		var r c10rRecovered
+		if err := json.Unmarshal(l, &r); err != nil {
+			return nil, nil, err
+		}
+		if r.Fatal != "" {
+			return nil, nil, fmt.Errorf("%s", r.Fatal)
+		}
+		if i == 0 {
+			first = &r
+		} else {
+			second = &r
+		}
+	}
+	return first, second, nil
 }
 
 func execWalRecover(line string) Result {
@@ -676,42 +817,114 @@ func execWalRecover(line string) Result {
 		return fail("mkdtemp", err)
 	}
 	defer os.RemoveAll(dir)
-	o1, err := c10rRunChild("write", dir, []byte(line+"\n"))
-	if err != nil {
-		return fail("writer", err)
+	var xop *c10rOp
+	if n := len(c.ops); n > 0 && c.ops[n-1].kind == 'x' {
+		xop = &c.ops[n-1]
 	}
-	var states []c10rState
-	sc := bufio.NewScanner(bytes.NewReader(o1))
-	sc.Buffer(make([]byte, 1<<20), 1<<28)
-	for sc.Scan() {
-		var st c10rState
-		if err := json.Unmarshal(sc.Bytes(), &st); err != nil {
-			return fail("writer output", err)
+	crashed := false // the process really died inside the operation
+	data := dir + "/d"
+	_ = os.Mkdir(data, 0o755)
+	var o1 []byte
+	if xop != nil && xop.sub != 'r' {
+		// scratch run with the crash log: which crash point is the m-th completed step of the last op?
+		scratch := dir + "/scratch"
+		_ = os.Mkdir(scratch, 0o755)
+		lg := dir + "/writer.log"
+		oa, _, err := c10rRunChild("write", scratch, []byte(line+"\n"), "VERIF_CRASH_LOG="+lg)
+		if err != nil {
+			return fail("writer (scratch run)", err)
 		}
-		states = append(states, st)
+		at := c10rFindCrashPoint(lg, fmt.Sprintf("op %d", len(c.ops)-1), xop.m, c10rIsStep(xop.sub))
+		if at == 0 {
+			o1, data = oa, scratch // fewer than m steps: the operation ran to its end
+		} else {
+			var died bool
+			o1, died, err = c10rRunChild("write", data, []byte(line+"\n"), "VERIF_CRASH_AT="+strconv.Itoa(at))
+			if err != nil || !died {
+				return fail("writer", fmt.Sprintf("did not die at crash point %d: %v", at, err))
+			}
+			crashed = true
+		}
+	} else {
+		o1, _, err = c10rRunChild("write", data, []byte(line+"\n"))
+		if err != nil {
+			return fail("writer", err)
+		}
 	}
-	if len(states) != len(c.ops)+1 || states[0].Shards != c.nsh || states[0].Err != "" {
+	states, err := c10rParseStates(o1)
+	if err != nil {
+		return fail("writer output", err)
+	}
+	wantStates := len(c.ops) + 1
+	if crashed {
+		wantStates--
+	}
+	if len(states) != wantStates || states[0].Shards != c.nsh || states[0].Err != "" {
 		return fail("writer", fmt.Sprintf("%d states for %d ops, shards=%d err=%q", len(states), len(c.ops), states[0].Shards, states[0].Err))
 	}
 	tsb, _ := json.Marshal(states[0].Tsids)
-	o2, err := c10rRunChild("recover", dir, tsb)
-	if err != nil {
-		return fail("recovery process", err)
-	}
 	var rec c10rRecovered
-	if err := json.Unmarshal(bytes.TrimSpace(o2), &rec); err != nil || rec.Fatal != "" {
-		return fail("recovery output", fmt.Sprint(err, rec.Fatal))
+	if xop != nil && xop.sub == 'r' {
+		scratch := dir + "/scratch"
+		if out, err := exec.Command("cp", "-a", data, scratch).CombinedOutput(); err != nil {
+			return fail("cp", fmt.Sprint(err, string(out)))
+		}
+		lg := dir + "/recover.log"
+		if _, _, err := c10rRunChild("recover", scratch, tsb, "VERIF_CRASH_LOG="+lg); err != nil {
+			return fail("recovery process (scratch run)", err)
+		}
+		at := c10rFindCrashPoint(lg, "recover", xop.m, c10rIsStep('r'))
+		var first *c10rRecovered
+		if at != 0 {
+			oc, died, err := c10rRunChild("recover", data, tsb, "VERIF_CRASH_AT="+strconv.Itoa(at))
+			if err != nil || !died {
+				return fail("recovery process", fmt.Sprintf("did not die at crash point %d: %v", at, err))
+			}
+			if first, _, err = c10rParseRec(oc); err != nil || first == nil {
+				return fail("recovery output (first restart)", err)
+			}
+			crashed = true
+		}
+		o2, _, err := c10rRunChild("recover", data, tsb)
+		if err != nil {
+			return fail("recovery process", err)
+		}
+		f2, s2, err := c10rParseRec(o2)
+		if err != nil || f2 == nil || s2 == nil {
+			return fail("recovery output", err)
+		}
+		if first == nil {
+			first = f2
+		}
+		rec = *s2
+		rec.Dir, rec.Groups, rec.Before = first.Dir, first.Groups, first.Before
+	} else {
+		o2, _, err := c10rRunChild("recover", data, tsb)
+		if err != nil {
+			return fail("recovery process", err)
+		}
+		f2, s2, err := c10rParseRec(o2)
+		if err != nil || f2 == nil || s2 == nil {
+			return fail("recovery output", err)
+		}
+		rec = *s2
+		rec.Dir, rec.Groups, rec.Before = f2.Dir, f2.Groups, f2.Before
+	}
+	crashClass := ""
+	if crashed {
+		crashClass = map[byte]string{'b': "crash-in-block-rotation/", 'r': "crash-in-recovery/", 'e': "crash-in-meta-write/"}[xop.sub]
 	}
 
 	res := Result{}
 	tag := func(t string) { res.Tags = append(res.Tags, t) }
 	pf := func(sig, msg string) {
+		sig = "walrecover/" + crashClass + sig
 		for _, f := range res.Fails {
-			if f.Sig == "walrecover/"+sig {
+			if f.Sig == sig {
 				return
 			}
 		}
-		res.Fails = append(res.Fails, PropFail{Sig: "walrecover/" + sig, Msg: trunc(msg, 700)})
+		res.Fails = append(res.Fails, PropFail{Sig: sig, Msg: trunc(msg, 700)})
 	}
 
 	// ---- the expectation, from what the writer process observed
@@ -752,7 +965,16 @@ func execWalRecover(line string) Result {
 	nAppends, nRolls, nBlockRot, nSegRot := 0, 0, 0, 0
 	maxWals := 0
 	for i, op := range c.ops {
+		if i+1 >= len(states) {
+			break // the writer died inside this (last) op: nothing of it completed
+		}
 		st := states[i+1]
+		if op.kind == 'x' { // the operation ran to its end (or xr: nothing happens in the writer)
+			op.kind = map[byte]byte{'b': 'b', 'e': 'e', 'r': 'n'}[op.sub]
+			if op.sub == 'r' {
+				continue
+			}
+		}
 		if st.Err != "" {
 			return fail("writer op "+strconv.Itoa(i), st.Err)
 		}
@@ -1025,7 +1247,15 @@ func execWalRecover(line string) Result {
 			}
 			continue
 		}
-		if len(want) == 0 && len(got.Series) > 0 {
+		hasPend := false
+		if crashed && xop.sub == 'b' {
+			for _, l := range pending[k.mid] {
+				if l.key == k {
+					hasPend = true
+				}
+			}
+		}
+		if len(want) == 0 && len(got.Series) > 0 && !hasPend {
 			if wrongSeg {
 				pf("replayed-into-wrong-segment", fmt.Sprintf("recovery created block %v in a segment that was not open at the crash (open: %d)", k, openSeg[k.mid]))
 			} else {
@@ -1045,8 +1275,21 @@ func execWalRecover(line string) Result {
 		sort.Strings(sids)
 		for _, s := range sids {
 			w, g := want[s], got.Series[s]
+			// datapoints that were only buffered when the writer died inside the block rotation: the block file written by
+			// the interrupted rotation holds them, a block rebuilt from the WAL does not — both are accepted
+			withPend := w
+			if crashed && xop.sub == 'b' {
+				sid, _ := strconv.Atoi(s)
+				pts := append([][2]uint64{}, completed[k][sid]...)
+				for _, l := range pending[k.mid] {
+					if l.key == k && l.p.sid == sid {
+						pts = append(pts, [2]uint64{uint64(l.p.ts), l.p.val})
+					}
+				}
+				withPend = c10rDigestOf(pts)
+			}
 			switch {
-			case w.same(g):
+			case w.same(g) || withPend.same(g):
 			case w.N == g.N && w.Sum == g.Sum:
 				pf("replay-order", fmt.Sprintf("block %v series %s: the completed datapoints came back in a different order: %s", k, s, describe(w, g)))
 			case g.N < w.N:
@@ -1133,6 +1376,15 @@ func execWalRecover(line string) Result {
 		tag("metawal")
 	}
 	_ = nAppends
+	if xop != nil {
+		t := "crash-op=x" + string(xop.sub)
+		if crashed {
+			t += "/died-inside"
+		} else {
+			t += "/ran-to-end"
+		}
+		tag(t)
+	}
 	return res
 }
 
@@ -1198,12 +1450,46 @@ func genWalRecover(r *rand.Rand, n int, tier string) []string {
 					emit(dp(0, false))
 				}
 			}))
+		case i%25 == 5 || i%25 == 13 || i%25 == 21:
+			// a crash INSIDE an operation (one shard): block rotation / first restart's RecoverWALData / meta-WAL write
+			sub := map[int]string{5: "b", 13: "r", 21: "e"}[i%25]
+			nser := 1 + r.Intn(2)
+			out = append(out, mk(1, []int{2, 3, 1000}[r.Intn(3)], nser, func(_ []int, emit func(string), dp func(int, bool) string) {
+				if r.Intn(2) == 0 { // an earlier rotated block / segment
+					emit(dp(r.Intn(nser), false))
+					emit([]string{"b", "s0"}[r.Intn(2)])
+				}
+				if sub == "e" {
+					emit(dp(r.Intn(nser), false))
+					emit("e")
+				}
+				files := 1 + r.Intn(3)
+				for f := 0; f < files; f++ {
+					for k := 0; k < 1+r.Intn(3); k++ {
+						emit(dp(r.Intn(nser), false))
+					}
+					if f < files-1 {
+						emit("f1")
+					} else {
+						emit(fmt.Sprintf("f%d", r.Intn(2)))
+					}
+				}
+				if r.Intn(2) == 0 {
+					emit(dp(r.Intn(nser), false)) // buffered only
+				}
+				m := 1 + r.Intn(files+3)
+				if sub == "e" {
+					m = 1 + r.Intn(3)/2 // Wal.Write has one step to die after (truncate)
+				}
+				emit(fmt.Sprintf("x%s:%d", sub, m))
+			}))
 		case i%25 == 11:
 			// malformed
 			bad := []string{"walrecover sh=0 cap=2 ser=0 bsh=0 ops=b", "walrecover sh=1 cap=0 ser=0 bsh=0 ops=b", "walrecover sh=4 cap=2 ser=0 bsh=0 ops=b",
 				"walrecover sh=1 cap=2 ser=0 bsh=0 ops=q", "walrecover sh=1 cap=2 ser=0 bsh=0 ops=d1:1700000000:3ff0000000000000:0",
 				"walrecover sh=1 cap=2 ser=0 bsh=1 ops=b", "walrecover sh=1 cap=2 ser=0 bsh=0", "walrecover sh=2 cap=2 ser=0,2 bsh=0 ops=b",
-				"walrecover sh=1 cap=2 ser=0 bsh=0 ops=f2", "walrecover sh=1 cap=2 ser=0 bsh=0 ops=s1", "walrecover sh=1 cap=2 ser=0 bsh=0 ops=b;;b"}
+				"walrecover sh=1 cap=2 ser=0 bsh=0 ops=f2", "walrecover sh=1 cap=2 ser=0 bsh=0 ops=s1", "walrecover sh=1 cap=2 ser=0 bsh=0 ops=b;;b",
+				"walrecover sh=1 cap=2 ser=0 bsh=0 ops=xb:1;b", "walrecover sh=2 cap=2 ser=0 bsh=0 ops=xb:1", "walrecover sh=1 cap=2 ser=0 bsh=0 ops=xq:1", "walrecover sh=1 cap=2 ser=0 bsh=0 ops=xb:0"}
 			out = append(out, bad[r.Intn(len(bad))])
 		default:
 			nsh := 1 + r.Intn(3)
